@@ -336,16 +336,16 @@ theorem C11_generated_avoid_reads_and_namespace (f : UserFn) (reqs : List Req) (
 /-- **C11_disjoint_partial.**  If every name the function binds that is a variant of a converter root is also reserved
 (read, or in the namespace), its free
 names are in the namespace snapshot (or unrelated to the transpiler's roots), it does not use the hard-coded
-identifiers and its transformed name does not collapse onto one, then: no converter-level name is a user name; no
-transpiler-level name is a free name of the function or a namespace key; no hard-coded identifier is a user name or
-is ever handed out by the namer. -/
+identifiers in a clashing way (`hardClash`) and its transformed name does not collapse onto one, then: no converter-level
+name is a user name; no transpiler-level name is a free name of the function or a namespace key; no hard-coded identifier
+clashes or is ever handed out by the namer. -/
 theorem C11_disjoint_partial (f : UserFn) (reqs : List Req) (hc : ConvOf f reqs)
     (h1 : BoundNamesReserved f) (h2 : FreeNamesResolved f) (h3 : FixedNamesUnused f) (h4 : FixedNamesNotVariants f)
     (h5 : ∀ r ∈ reqs, r.level = .converter → r.call.root ∈ Gen.Naming.converterRoots) :
     (∀ x ∈ converterNames f reqs, x ∉ f.userNames) ∧
     (∀ x ∈ transpilerNames f reqs, x ∉ f.free ∧ x ∉ f.ns) ∧
-    (∀ x ∈ Gen.Naming.templateFixedNames ++ Gen.Naming.extraLocals,
-        x ∉ f.userNames ∧ x ∉ converterNames f reqs ∧ x ∉ transpilerNames f reqs) := by
+    (∀ x ∈ hardCodedNames,
+        hardClash f x = false ∧ x ∉ converterNames f reqs ∧ x ∉ transpilerNames f reqs) := by
   have hbase := C11_generated_avoid_reads_and_namespace f reqs hc
   refine ⟨?_, ?_, ?_⟩
   · intro x hx hu
@@ -378,7 +378,7 @@ theorem C11_disjoint_partial (f : UserFn) (reqs : List Req) (hc : ConvOf f reqs)
       obtain ⟨p, hp, hl, rfl⟩ := mem_converterNames hcn
       obtain ⟨hr, _, _, hv⟩ := mem_produced hp
       have hroot := h5 p.2 hr hl
-      have hall : ∀ r ∈ Gen.Naming.converterRoots, ∀ y ∈ Gen.Naming.templateFixedNames ++ Gen.Naming.extraLocals,
+      have hall : ∀ r ∈ Gen.Naming.converterRoots, ∀ y ∈ hardCodedNames,
           isVariant r y = false := by decide
       have := hall _ hroot _ hx
       rw [hv] at this
@@ -489,8 +489,22 @@ example : ConvOf cexLate cexLateReqs ∧ "inner_factory" ∈ transpilerNames cex
 
 /-- `def q1(a): vars_ = 0; if a > 1: vars_ = a; return vars_` and `def p1(ag__): return h(ag__)`. -/
 def cexFixed : UserFn :=
-  { name := "q1", bound := ["a", "vars_"], read := ["a", "vars_"], readLocal := [], free := [], ns := ["q1"] }
+  { name := "q1", bound := ["a", "vars_"], read := ["a", "vars_"], readLocal := [], free := [], ns := ["q1"],
+    blockVarRoots := ["vars_"] }
 example : ¬ FixedNamesUnused cexFixed ∧ clsFixed cexFixed "vars_" = true ∧ BoundNamesReserved cexFixed := by decide
+
+/-- …whereas a `vars_` that is not a block variable of any lowered statement is harmless (corpus: ok-vars-read-only). -/
+example : FixedNamesUnused { cexFixed with blockVarRoots := ["x"] } := by decide
+
+/-- `def f1(tuple, b): return h(b, *tuple)`: call_trees.py lowers the call to `(b,) + tuple(tuple)` — the BUILTIN `tuple`
+is referenced by bare name and the user's parameter captures it (TypeError: 'tuple' object is not callable); likewise
+`dict` at keyword calls. -/
+def cexBuiltin : UserFn :=
+  { name := "f1", bound := ["tuple", "b"], read := ["tuple", "b", "h"], readLocal := [], free := ["h"], ns := ["h", "f1"],
+    starCalls := true }
+example : ¬ FixedNamesUnused cexBuiltin ∧ clsBuiltinShadow cexBuiltin "tuple" = true ∧ BoundNamesReserved cexBuiltin ∧
+    clsFixed cexBuiltin "tuple" = false := by decide
+example : FixedNamesUnused { cexBuiltin with starCalls := false } := by decide
 
 /-- `def _5(a): return a + 1`: `'ag__' + '_5'` is split into root `ag__` and counter 5 — the converted function is
 called `ag__` and shadows the operator module. -/
@@ -511,15 +525,339 @@ theorem transpiler_sites_reserve_nothing : ∀ s ∈ Gen.Naming.transpilerSites,
 /-- `Namer.new_symbol` still has the statement structure `Malt.Naming.newSymbol` describes. -/
 theorem namer_shape_recognised : ∀ p ∈ Gen.Naming.namerShapes, p.2 = true := by decide
 
-/-- The identifiers generated code uses without asking the namer, and the transpiler's roots, are the modelled ones. -/
+/-- The transpiler's roots and naming scheme are the modelled ones; the factory parameters and the identifiers written
+literally in templates are classified hard-coded names. -/
 theorem fixed_names_listed :
-    Gen.Naming.templateFixedNames = ["ag__", "block_vars", "vars_"] ∧ Gen.Naming.extraLocals = ["ag__"] ∧
+    (∀ x ∈ Gen.Naming.templateFixedNames ++ Gen.Naming.extraLocals, x ∈ hardCodedNames) ∧
     Gen.Naming.transpilerRoots = ["inner_factory", "outer_factory"] ∧ Gen.Naming.transformedNamePrefix = "ag__" ∧
     Gen.Naming.lambdaName = "lam" := by decide
 
 /-- No literal root can ever yield a hard-coded identifier. -/
 theorem literal_roots_never_yield_fixed_names :
     ∀ r ∈ Gen.Naming.converterRoots ++ Gen.Naming.transpilerRoots,
-      ∀ y ∈ Gen.Naming.templateFixedNames ++ Gen.Naming.extraLocals, isVariant r y = false := by decide
+      ∀ y ∈ hardCodedNames, isVariant r y = false := by decide
+
+
+/-! ## Part 3 — EVERY site that introduces a name (regenerated table `Gen.Naming.introSites`) is modelled -/
+
+/-- Every identifier written literally in the source of a name-introducing site (template text, parsed literal,
+`ast.Name('x')`, string constant handed to a binding placeholder) is a classified hard-coded name with its own clash
+condition (`hardCodedSpec` / `hardClash`).  A new hard-coded name in malt/converters, transpiler.py, templates.py,
+core/converter.py or malt/operators appears in the regenerated table and breaks this theorem until it is classified. -/
+theorem hard_coded_sites_classified : ∀ s ∈ Gen.Naming.introSites, s.via = .hard → s.name ∈ hardCodedNames := by decide
+
+/-- The only hard-coded names in BINDING position are the parameters of the generated state setter. -/
+theorem hard_coded_binders_are_setter_params :
+    ∀ s ∈ Gen.Naming.introSites, s.via = .hard → s.how = .binds →
+      hardCodedSpec.lookup s.name = some .setterParam ∨ hardCodedSpec.lookup s.name = some .inertParam := by decide
+
+/-- Every site whose name is neither a namer result nor literal is hand-classified (user AST / user variable names /
+configuration / pass-through); a computed binder name (e.g. `'retval_' + suffix`) is not, and breaks this. -/
+theorem other_sites_classified :
+    ∀ s ∈ Gen.Naming.introSites, s.via = .other ∨ s.via = .passedIn → (otherSpec.lookup (s.file, s.func, s.name)).isSome = true := by
+  decide
+
+/-- So: every name-introducing site is a namer request (then `namer_fresh` applies to it), a classified hard-coded
+identifier (then `hardClash` is its clash condition, covered by `clsFixed` / `clsBuiltinShadow`), or a classified
+non-generated source. -/
+theorem intro_sites_all_modelled : ∀ s ∈ Gen.Naming.introSites,
+    s.via = .namer ∨ s.via = .namerState ∨ (s.via = .hard ∧ s.name ∈ hardCodedNames) ∨
+    (otherSpec.lookup (s.file, s.func, s.name)).isSome = true := by decide
+
+/-- malt/operators puts no identifier into generated code. -/
+theorem operators_introduce_no_names :
+    ∀ s ∈ Gen.Naming.introSites, (s.file.toList.take 10 == "operators/".toList) = false := by decide
+
+/-- The clash condition of every hard-coded name is covered by exactly one of the two hard-coded finding classes. -/
+theorem hard_clash_classified (f : UserFn) (x : String) :
+    hardClash f x = (clsFixed f x || clsBuiltinShadow f x) := by
+  unfold hardClash clsFixed clsBuiltinShadow
+  cases hardCodedSpec.lookup x with
+  | none => rfl
+  | some k => cases k <;> simp [isBuiltinKind]
+
+/-! ## Part 4 — the whole conversion, pass by pass in pipeline order -/
+
+private theorem runCalls_append (as bs : List Call) : ∀ nm,
+    runCalls nm (as ++ bs) = ((runCalls nm as).1 ++ (runCalls (runCalls nm as).2 bs).1, (runCalls (runCalls nm as).2 bs).2) := by
+  induction as with
+  | nil => intro nm; simp [runCalls]
+  | cons a as ih =>
+    intro nm
+    rw [List.cons_append, runCalls_cons, runCalls_cons, ih]
+    simp
+
+private theorem runPipeline_cons (nm : Namer) (step : String) (calls : List Call) (ps : List (String × List Call)) :
+    runPipeline nm ((step, calls) :: ps) =
+      ((step, (runCalls nm calls).1) :: (runPipeline (runCalls nm calls).2 ps).1, (runPipeline (runCalls nm calls).2 ps).2) := rfl
+
+/-- Folding the passes over the namer is the same as replaying the flat request sequence. -/
+theorem runPipeline_flat (ps : List (String × List Call)) : ∀ nm,
+    (runPipeline nm ps).1.flatMap (·.2) = (runCalls nm (ps.flatMap (·.2))).1 ∧
+    (runPipeline nm ps).2 = (runCalls nm (ps.flatMap (·.2))).2 := by
+  induction ps with
+  | nil => intro nm; simp [runPipeline, runCalls]
+  | cons p ps ih =>
+    intro nm
+    obtain ⟨step, calls⟩ := p
+    rw [runPipeline_cons]
+    simp only [List.flatMap_cons]
+    rw [runCalls_append]
+    exact ⟨by simp [(ih _).1], (ih _).2⟩
+
+/-- **Per pass.**  Whatever happened before (any namer state), the names a pass is given are pairwise distinct, distinct
+from every name generated by earlier passes, outside the namespace, and each avoids the reserved set of its own request. -/
+theorem pipeline_pass_fresh (nm : Namer) (calls : List Call) :
+    (runCalls nm calls).1.Nodup ∧ (∀ x ∈ (runCalls nm calls).1, x ∉ nm.globalNs ∧ x ∉ nm.generated) ∧
+    (∀ p ∈ (runCalls nm calls).1.zip calls, p.1 ∉ p.2.reserved) ∧
+    (runCalls nm calls).2.generated = (runCalls nm calls).1.reverse ++ nm.generated :=
+  ⟨(namer_distinct nm calls).1, (namer_distinct nm calls).2, namer_avoids_reserved calls nm, namer_generated_eq calls nm⟩
+
+/-- **Across passes.**  The names of all passes of a pipeline run together are pairwise distinct. -/
+theorem pipeline_names_distinct (nm : Namer) (ps : List (String × List Call)) :
+    ((runPipeline nm ps).1.flatMap (·.2)).Nodup := by
+  rw [(runPipeline_flat ps nm).1]
+  exact (namer_distinct _ _).1
+
+private theorem literal_site_roots_listed :
+    ∀ s ∈ Gen.Naming.converterSites, (s.rootKind != .dynamic) = true → s.root ∈ Gen.Naming.converterRoots := by decide
+
+private theorem rootsOfStep_sub {step r : String} (h : r ∈ rootsOfStep step) : r ∈ Gen.Naming.converterRoots := by
+  unfold rootsOfStep at h
+  obtain ⟨s, hs, rfl⟩ := List.mem_map.mp h
+  obtain ⟨hs1, hs2⟩ := List.mem_filter.mp hs
+  simp only [Bool.and_eq_true] at hs2
+  exact literal_site_roots_listed s hs1 hs2.2
+
+private theorem mem_reqs {c : Conversion} {r : Req} (h : r ∈ c.reqs) :
+    (r.level = .transpiler ∧ r.call ∈ c.pre ++ c.post) ∨ (r.level = .converter ∧ ∃ p ∈ c.passes, r.call ∈ p.2) := by
+  unfold Conversion.reqs at h
+  simp only [List.mem_append, List.mem_map, List.mem_flatMap] at h
+  rcases h with (⟨a, ha, rfl⟩ | ⟨p, hp, a, ha, rfl⟩) | ⟨a, ha, rfl⟩
+  · exact Or.inl ⟨rfl, List.mem_append_left _ ha⟩
+  · exact Or.inr ⟨rfl, p, hp, ha⟩
+  · exact Or.inl ⟨rfl, List.mem_append_right _ ha⟩
+
+/-- A well-formed pipeline run is a conversion in the sense of Part 2, with literal converter roots. -/
+theorem wellFormed_convOf (f : UserFn) (c : Conversion) (h : wellFormed f c = true) :
+    ConvOf f c.reqs ∧ (∀ r ∈ c.reqs, r.level = .converter → r.call.root ∈ Gen.Naming.converterRoots) ∧
+    (c.passes.map (·.1)).Sublist (Gen.Pipeline.steps.map (·.1)) := by
+  unfold wellFormed at h
+  simp only [Bool.and_eq_true, List.all_eq_true, List.contains_iff_mem, List.isSublist_iff_sublist] at h
+  obtain ⟨⟨hsub, hpass⟩, htr⟩ := h
+  refine ⟨?_, ?_, hsub⟩
+  · intro r hr
+    rcases mem_reqs hr with ⟨hl, hm⟩ | ⟨hl, p, hp, hm⟩
+    · refine ⟨fun hc => ?_, fun _ => htr _ hm⟩
+      rw [hl] at hc; exact Level.noConfusion hc
+    · refine ⟨fun _ x hx => (hpass p hp r.call hm).2 x hx, fun ht => ?_⟩
+      rw [hl] at ht; exact Level.noConfusion ht
+  · intro r hr hl
+    rcases mem_reqs hr with ⟨hl', _⟩ | ⟨_, p, hp, hm⟩
+    · rw [hl] at hl'; exact Level.noConfusion hl'
+    · exact rootsOfStep_sub (hpass p hp r.call hm).1
+
+private theorem lookup_none_of_not_mem {x : String} (h : x ∉ hardCodedNames) : hardCodedSpec.lookup x = none := by
+  cases hl : hardCodedSpec.lookup x with
+  | none => rfl
+  | some k =>
+    exfalso
+    apply h
+    have := List.lookup_eq_some_iff.mp hl
+    obtain ⟨l₁, l₂, hsplit, _⟩ := this
+    unfold hardCodedNames
+    rw [hsplit]
+    simp
+
+/-- The negation of every finding class (for every name) gives the four program hypotheses of `C11_disjoint_partial`. -/
+theorem noClashClass_hyps (f : UserFn) (h : NoClashClass f) :
+    BoundNamesReserved f ∧ FreeNamesResolved f ∧ FixedNamesUnused f ∧ FixedNamesNotVariants f := by
+  refine ⟨?_, ?_, ?_, ?_⟩
+  · intro x hb hv
+    have h1 := (h x).1
+    have h2 := (h x).2.1
+    unfold clsBoundOnly at h1
+    unfold clsNestedBound at h2
+    have hbc : f.bound.contains x = true := by simpa using hb
+    rw [hbc, hv] at h1 h2
+    cases hr : f.read.contains x with
+    | true => exact Or.inl (by simpa using hr)
+    | false =>
+      cases hn : f.ns.contains x with
+      | true => exact Or.inr (by simpa using hn)
+      | false =>
+        rw [hr, hn] at h1 h2
+        cases hl : f.readLocal.contains x <;> rw [hl] at h1 h2 <;> simp at h1 h2
+  · intro x hfree
+    have h3 := (h x).2.2.1
+    unfold clsLateFree at h3
+    have hfc : f.free.contains x = true := by simpa using hfree
+    rw [hfc] at h3
+    cases hn : f.ns.contains x with
+    | true => exact Or.inl (by simpa using hn)
+    | false =>
+      rw [hn] at h3
+      simp only [Bool.true_and, Bool.not_false] at h3
+      exact Or.inr (fun r hr => by
+        have := List.any_eq_false.mp h3 r hr
+        simpa using this)
+  · intro x _
+    rw [hard_clash_classified]
+    rw [(h x).2.2.2.1, (h x).2.2.2.2.1]
+    rfl
+  · intro r hr x hx
+    have h6 := (h x).2.2.2.2.2
+    unfold clsCollapse at h6
+    have hc : hardCodedNames.contains x = true := by simpa using hx
+    rw [hc] at h6
+    simp only [Bool.true_and] at h6
+    have := List.any_eq_false.mp h6 r hr
+    simpa using this
+
+/-- The Boolean the driver evaluates decides `NoClashClass` (only names of `bound ++ free ++ hardCodedNames` can be in a class). -/
+theorem noClashClass_sound (f : UserFn) (h : noClashClass f = true) : NoClashClass f := by
+  unfold noClashClass at h
+  have hall := List.all_eq_true.mp h
+  intro x
+  by_cases hm : x ∈ f.bound ++ f.free ++ hardCodedNames
+  · have := hall x hm
+    simp only [Bool.and_eq_true, Bool.not_eq_true'] at this
+    obtain ⟨⟨⟨⟨⟨a, b⟩, c⟩, d⟩, e⟩, g⟩ := this
+    exact ⟨a, b, c, d, e, g⟩
+  · simp only [List.mem_append, not_or] at hm
+    obtain ⟨⟨hb, hf⟩, hh⟩ := hm
+    have hbc : f.bound.contains x = false := by simpa using hb
+    have hfc : f.free.contains x = false := by simpa using hf
+    have hhc : hardCodedNames.contains x = false := by simpa using hh
+    have hl := lookup_none_of_not_mem hh
+    refine ⟨?_, ?_, ?_, ?_, ?_, ?_⟩
+    · unfold clsBoundOnly; rw [hbc]; rfl
+    · unfold clsNestedBound; rw [hbc]; rfl
+    · unfold clsLateFree; rw [hfc]; rfl
+    · unfold clsFixed; rw [hl]
+    · unfold clsBuiltinShadow; rw [hl]
+    · unfold clsCollapse; rw [hhc]; rfl
+
+/-
+FULL end-to-end statement (false of the pinned code — every finding class has a witness, see the counterexamples above):
+
+  theorem C11_conversion_end_to_end (f) (c) (hwf : wellFormed f c = true) :
+      (allIntroduced f c).Nodup ∧ (∀ x ∈ converterNames f c.reqs, x ∉ f.userNames) ∧
+      (∀ x ∈ transpilerNames f c.reqs, x ∉ f.free ∧ x ∉ f.ns) ∧ (∀ x ∈ hardCodedNames, hardClash f x = false)
+-/
+
+/-- **C11_conversion_end_to_end_partial.**  For a whole conversion — the transformed-name request, then the requests of
+every converter pass in pipeline order (each asking for the literal roots of its own call sites and reserving the body
+reads), then the factory-name requests — under the negation of every clash class: ALL names put into the generated code
+(namer results of all passes together with the hard-coded identifiers) are pairwise distinct; no converter-level name is
+an identifier of the user's function or a namespace key; no transpiler-level name is a free name of the function or a
+namespace key; no hard-coded identifier clashes. -/
+theorem C11_conversion_end_to_end_partial (f : UserFn) (c : Conversion) (hwf : wellFormed f c = true)
+    (hnc : NoClashClass f) :
+    (allIntroduced f c).Nodup ∧ (∀ x ∈ converterNames f c.reqs, x ∉ f.userNames) ∧
+    (∀ x ∈ transpilerNames f c.reqs, x ∉ f.free ∧ x ∉ f.ns) ∧ (∀ x ∈ hardCodedNames, hardClash f x = false) := by
+  obtain ⟨hconv, hroots, _⟩ := wellFormed_convOf f c hwf
+  obtain ⟨h1, h2, h3, h4⟩ := noClashClass_hyps f hnc
+  obtain ⟨p1, p2, p3⟩ := C11_disjoint_partial f c.reqs hconv h1 h2 h3 h4 hroots
+  have hnodup := (C11_generated_avoid_reads_and_namespace f c.reqs hconv).2.2
+  refine ⟨?_, p1, p2, fun x hx => (p3 x hx).1⟩
+  unfold allIntroduced
+  refine List.nodup_append.mpr ⟨hnodup, by decide, ?_⟩
+  intro x hx y hy hxy
+  subst hxy
+  obtain ⟨p, hp, rfl⟩ := List.mem_map.mp hx
+  have hp3 := p3 p.1 hy
+  cases hl : p.2.level with
+  | converter =>
+    apply hp3.2.1
+    unfold converterNames
+    exact List.mem_map.mpr ⟨p, List.mem_filter.mpr ⟨hp, by simp [hl]⟩, rfl⟩
+  | transpiler =>
+    apply hp3.2.2
+    unfold transpilerNames
+    exact List.mem_map.mpr ⟨p, List.mem_filter.mpr ⟨hp, by simp [hl]⟩, rfl⟩
+
+/-- The conversion recorded for `def g(n): s = 0; for i in range(n): if i > break_: break; s += i; return s` (user name
+`break_` read): well-formed, in no clash class, and the conclusion computed. -/
+def okConversion : Conversion :=
+  { pre := [⟨"ag__g", []⟩],
+    passes := [("functions", [⟨"fscope", ["break_", "i", "n", "range", "s"]⟩]),
+               ("break_statements", [⟨"break_", ["break_", "fscope", "i", "n", "range", "s"]⟩]),
+               ("continue_statements", [⟨"continue_", ["break_", "fscope", "i", "n", "range", "s"]⟩]),
+               ("return_statements", [⟨"do_return", ["break_", "i", "n", "range", "s"]⟩, ⟨"retval_", ["break_", "i", "n", "range", "s"]⟩]),
+               ("control_flow", [⟨"get_state", ["break_", "break__1", "i", "n", "range", "s"]⟩,
+                                 ⟨"set_state", ["break_", "break__1", "i", "n", "range", "s"]⟩,
+                                 ⟨"if_body", ["break_", "i", "n", "range", "s"]⟩, ⟨"else_body", ["break_", "i", "n", "range", "s"]⟩,
+                                 ⟨"get_state", ["break_", "i", "n", "range", "s"]⟩, ⟨"set_state", ["break_", "i", "n", "range", "s"]⟩,
+                                 ⟨"extra_test", ["break_", "i", "n", "range", "s"]⟩, ⟨"itr", ["break_", "i", "n", "range", "s"]⟩,
+                                 ⟨"loop_body", ["break_", "i", "n", "range", "s"]⟩])],
+    post := [⟨"inner_factory", []⟩, ⟨"outer_factory", []⟩] }
+example : wellFormed okFn okConversion = true ∧ noClashClass okFn = true ∧
+    (runPipeline ⟨okFn.ns, ["ag__g"]⟩ okConversion.passes).1 =
+      [("functions", ["fscope"]), ("break_statements", ["break__1"]), ("continue_statements", ["continue_"]),
+       ("return_statements", ["do_return", "retval_"]),
+       ("control_flow", ["get_state", "set_state", "if_body", "else_body", "get_state_1", "set_state_1", "extra_test", "itr", "loop_body"])] := by
+  decide
+
+/-- A pass out of pipeline order, or asking for a root of another pass's sites, is not well-formed. -/
+example : wellFormed okFn { okConversion with passes := [("control_flow", []), ("functions", [])] } = false ∧
+    wellFormed okFn { okConversion with passes := [("functions", [⟨"break_", ["break_", "i", "n", "range", "s"]⟩])] } = false := by
+  decide
+
+/-! ### `c11.why`: an empty list of reasons is exactly "all hypotheses of `C11_disjoint_partial` hold" -/
+
+theorem whyOutside_nil_hyps (f : UserFn) (reqs : List Req) (h : whyOutside f reqs = []) :
+    ConvOf f reqs ∧ BoundNamesReserved f ∧ FreeNamesResolved f ∧ FixedNamesUnused f ∧ FixedNamesNotVariants f ∧
+    (∀ r ∈ reqs, r.level = .converter → r.call.root ∈ Gen.Naming.converterRoots) := by
+  unfold whyOutside at h
+  simp only [List.append_eq_nil_iff, List.map_eq_nil_iff, List.filter_eq_nil_iff] at h
+  obtain ⟨⟨⟨⟨⟨⟨⟨⟨w1, w2⟩, w3⟩, w4⟩, w5⟩, w6⟩, w7⟩, w8⟩, w9⟩ := h
+  have hnc : noClashClass f = true := by
+    unfold noClashClass
+    apply List.all_eq_true.mpr
+    intro x hx
+    simp only [List.mem_append] at hx
+    have e1 : clsBoundOnly f Gen.Naming.converterRoots x = false := by
+      cases hb : f.bound.contains x with
+      | false => unfold clsBoundOnly; rw [hb]; rfl
+      | true => simpa using w1 x (by simpa using hb)
+    have e2 : clsNestedBound f Gen.Naming.converterRoots x = false := by
+      cases hb : f.bound.contains x with
+      | false => unfold clsNestedBound; rw [hb]; rfl
+      | true => simpa using w2 x (by simpa using hb)
+    have e3 : clsLateFree f x = false := by
+      cases hb : f.free.contains x with
+      | false => unfold clsLateFree; rw [hb]; rfl
+      | true => simpa using w3 x (by simpa using hb)
+    have e456 : clsFixed f x = false ∧ clsBuiltinShadow f x = false ∧ clsCollapse f x = false := by
+      by_cases hh : x ∈ hardCodedNames
+      · exact ⟨by simpa using w4 x hh, by simpa using w5 x hh, by simpa using w6 x hh⟩
+      · have hl := lookup_none_of_not_mem hh
+        have hhc : hardCodedNames.contains x = false := by simpa using hh
+        refine ⟨?_, ?_, ?_⟩
+        · unfold clsFixed; rw [hl]
+        · unfold clsBuiltinShadow; rw [hl]
+        · unfold clsCollapse; rw [hhc]; rfl
+    rw [e1, e2, e3, e456.1, e456.2.1, e456.2.2]
+    rfl
+  obtain ⟨h1, h2, h3, h4⟩ := noClashClass_hyps f (noClashClass_sound f hnc)
+  refine ⟨?_, h1, h2, h3, h4, ?_⟩
+  · intro r hr
+    refine ⟨fun hl x hx => ?_, fun hl => ?_⟩
+    · have := w8 r hr
+      simp only [hl, beq_self_eq_true, Bool.true_and, Bool.not_eq_true'] at this
+      have hall : ∀ x ∈ f.read, x ∈ r.call.reserved := by simpa using this
+      exact hall x hx
+    · have := w9 r hr
+      simp only [hl, beq_self_eq_true, Bool.true_and] at this
+      simpa using this
+  · intro r hr hl
+    have := w7 r hr
+    simp only [hl, beq_self_eq_true, Bool.true_and] at this
+    simpa using this
+
+example : whyOutside okFn okReqs = [] ∧
+    whyOutside cexBoundOnly cexBoundOnlyReqs = [("bound_only_name_is_root_variant", "break_")] ∧
+    whyOutside cexBuiltin [] = [("builtin_referenced_by_generated_code_shadowed", "tuple")] := by decide
 
 end Malt.Props.C11
